@@ -15,5 +15,11 @@ func VerifPoly(name string) Type {
 	// nil carries no payload, bool payload is 0 or 1 (the only values the constructors build)
 	vrt.Assume(vrt.Or(k != 0, bits == 0))
 	vrt.Assume(vrt.Or(k != 2, bits <= 1))
-	return Type{typ: kinds[k], morph: bits}
+	polyLast = Type{typ: kinds[k], morph: bits}
+	return polyLast
 }
+
+var polyLast Type
+
+// VerifPolyLast returns the value most recently built by VerifPoly.
+func VerifPolyLast() Type { return polyLast }
